@@ -48,6 +48,10 @@ func parseDef(def string) *query.Query {
 // main stream s is a member iff SOME visible stream x satisfies the function (xHas tells whether x is a
 // member of a tag according to the truth computed so far).
 var SubQueryDefinitions = map[string]func(s, x *ref.Rec, xHas func(tag string) bool) bool{
+	// a mark list used inside a sub-query: the stream that follows a marked one
+	"@sub:mark:m id:@sub:id@+1": func(s, x *ref.Rec, xHas func(string) bool) bool {
+		return xHas("mark/m") && s.ID == x.ID+1
+	},
 	"@sub:tag:b sport:@sub:sport@": func(s, x *ref.Rec, xHas func(string) bool) bool {
 		return xHas("tag/b") && s.SPort == x.SPort
 	},
